@@ -201,3 +201,41 @@ func init() {
 func init() {
 	mutant("goaway-body-kept-after-release", "no-use-after-release", "conn.go", "				c.closeRef = ga.stream\n				c.state = connStateClosed\n			}\n\n			break loop\n		}", "				c.closeRef = ga.stream\n				c.state = connStateClosed\n\n				break loop\n			}\n		}")
 }
+
+// Variants for the rules written after the mutation sweep (rules_gap.go, conn-lifecycle).
+func init() {
+	mutant("stream-window-limit-constant", "credit-overflow-check", "serverConn.go", "							if s.window > 1<<31-1 {", "							if s.window > 1<<32-1 {")
+	mutant("conn-window-limit-loose", "credit-overflow-check", "serverConn.go", "					if sc.clientWindow > 1<<31-1 {", "					if sc.clientWindow > 1<<31+1 {")
+	mutant("stream-wu-limit-nonstrict", "credit-overflow-check", "serverConn.go", "		if atomic.AddInt64(&strm.window, win) > 1<<31-1 {", "		if atomic.AddInt64(&strm.window, win) >= 1<<31-1 {")
+	mutant("rst-on-latest-is-idle", "unknown-stream-classification", "serverConn.go", "					if fr.Stream() > sc.lastID {", "					if fr.Stream() >= sc.lastID {")
+	mutant("lower-than-latest-nonstrict", "unknown-stream-classification", "serverConn.go", "				if fr.Stream() < sc.lastID {\n					sc.writeGoAway(fr.Stream(), ProtocolError, \"stream ID is lower than the latest\")", "				if fr.Stream() <= sc.lastID {\n					sc.writeGoAway(fr.Stream(), ProtocolError, \"stream ID is lower than the latest\")")
+	mutant("resume-not-closed", "completion-closes-stream", "serverConn.go", "				if sc.sendData(strm) {\n					strm.SetState(StreamStateClosed)\n				}", "				if sc.sendData(strm) {\n					strm.responded = true\n				}")
+	mutant("flush-done-not-closed", "completion-closes-stream", "serverConn.go", "	for _, s := range done {\n		s.SetState(StreamStateClosed)\n		closeStream(s)\n	}", "	for _, s := range done {\n		s.SetState(StreamStateClosed)\n	}")
+	mutant("resume-while-handler-runs", "completion-closes-stream", "serverConn.go", "			} else if strm.responded && !strm.handlerRunning && strm.hasMoreToSend() {", "			} else if strm.responded || !strm.handlerRunning && strm.hasMoreToSend() {")
+	mutant("stream-error-ends-connection", "error-routing", "serverConn.go", "				if errors.As(err, &connErr) &&\n					connErr.frameType == FrameGoAway && connErr.Code() != NoError {", "				if errors.As(err, &connErr) ||\n					connErr.frameType == FrameGoAway && connErr.Code() != NoError {")
+	mutant("window-update-on-stream-zero", "emitters-address-stream", "serverConn.go", "	fr := AcquireFrameHeader()\n	fr.SetStream(id)\n\n	wu := AcquireFrame(FrameWindowUpdate).(*WindowUpdate)", "	fr := AcquireFrameHeader()\n\n	wu := AcquireFrame(FrameWindowUpdate).(*WindowUpdate)")
+	mutant("reset-on-stream-zero", "emitters-address-stream", "serverConn.go", "	fr := AcquireFrameHeader()\n	fr.SetStream(strm)\n	fr.SetBody(r)", "	fr := AcquireFrameHeader()\n	fr.SetBody(r)")
+	mutant("authority-not-marked", "request-mapping", "serverConn.go", "				strm.pseudoAuthority = true\n", "")
+	mutant("authority-not-delivered", "request-mapping", "serverConn.go", "				req.Header.SetHostBytes(v)\n", "")
+	mutant("user-agent-dropped", "request-mapping", "serverConn.go", "			req.Header.SetUserAgentBytes(v)\n", "")
+	mutant("header-list-size-undercount", "request-mapping", "serverConn.go", "		strm.headerListSize += len(k) + len(v) + 32", "		strm.headerListSize += len(k) + len(v) - 32")
+	mutant("carry-needs-two-bytes", "request-mapping", "serverConn.go", "errors.Is(err, ErrUnexpectedSize) && len(pb) > 0 && !fr.Flags().Has(FlagEndHeaders)", "errors.Is(err, ErrUnexpectedSize) && len(pb) > 1 && !fr.Flags().Has(FlagEndHeaders)")
+	mutant("body-limit-nonstrict", "request-mapping", "serverConn.go", "sc.maxRequestBodySize > 0 && strm.recvBody > sc.maxRequestBodySize", "sc.maxRequestBodySize > 0 && strm.recvBody >= sc.maxRequestBodySize")
+	mutant("handler-running-not-set", "request-mapping", "serverConn.go", "	strm.handlerRunning = true\n\n	go func() {", "	go func() {")
+	mutant("one-byte-body-dropped", "request-mapping", "serverConn.go", "hasBody := ctx.Response.IsBodyStream() || len(ctx.Response.Body()) > 0", "hasBody := ctx.Response.IsBodyStream() || len(ctx.Response.Body()) > 1")
+	mutant("short-read-dropped", "request-mapping", "serverConn.go", "	n, err := strm.bodyStream.Read(buf)\n	if n > 0 {", "	n, err := strm.bodyStream.Read(buf)\n	if n > 1 {")
+	mutant("server-encoder-not-resized", "settings-applied", "serverConn.go", "	sc.enc.SetMaxTableSize(sc.clientS.HeaderTableSize())\n", "")
+	mutant("server-settings-not-kept", "settings-applied", "serverConn.go", "	st.CopyTo(&sc.clientS)\n	sc.enc.SetMaxTableSize(sc.clientS.HeaderTableSize())", "	sc.enc.SetMaxTableSize(st.HeaderTableSize())")
+	mutant("connection-header-kept", "settings-applied", "serverConn.go", "	res.Header.Del(\"Connection\")\n", "")
+}
+
+func init() {
+	mutant("request-timer-not-stopped", "conn-lifecycle", "serverConn.go", "		sc.maxIdleTimer.Stop()\n	}\n\n	sc.maxRequestTimer.Stop()\n}", "		sc.maxIdleTimer.Stop()\n	}\n}")
+	mutant("ping-timer-unguarded", "conn-lifecycle", "serverConn.go", "func (sc *serverConn) close() {\n	if sc.pingTimer != nil {\n		sc.pingTimer.Stop()\n	}", "func (sc *serverConn) close() {\n	sc.pingTimer.Stop()")
+	mutant("serve-skips-teardown-on-error", "conn-lifecycle", "serverConn.go", "		err = nil\n	}\n\n	sc.close()\n\n	return err", "		err = nil\n\n		sc.close()\n	}\n\n	return err")
+	mutant("graceful-close-ignores-promised", "conn-lifecycle", "serverConn.go", "			if strm.origType == FrameHeaders && strm.ID() <= ref {\n				return false\n			}", "			if strm.origType == FrameHeaders && strm.ID() < ref {\n				return false\n			}")
+	mutant("abandoned-not-marked", "conn-lifecycle", "serverConn.go", "		if strm.handlerRunning {\n			strm.abandoned = true\n", "		if strm.handlerRunning {\n")
+	mutant("abandoned-answered", "conn-lifecycle", "serverConn.go", "				releaseStream(strm)\n				continue\n			}\n\n			if sc.finishRequest(strm) {", "				releaseStream(strm)\n			}\n\n			if sc.finishRequest(strm) {")
+	mutant("slot-returned-unconditionally", "conn-lifecycle", "serverConn.go", "		if strm.origType == FrameHeaders {\n			openStreams--\n		}\n\n		if strm.ctx != nil {", "		openStreams--\n\n		if strm.ctx != nil {")
+	mutant("origin-not-recorded", "conn-lifecycle", "serverConn.go", "	strm.origType = frameType\n", "")
+}
